@@ -22,7 +22,7 @@ func (vc *VC) lenient() bool {
 }
 
 func (vc *VC) topEnv(cur *State) *SpecEnv {
-	env := &SpecEnv{vc: vc, vars: map[string]SV{}, cur: cur, old: vc.entry, pkg: vc.fn.Pkg.Pkg, mode: vc.mode}
+	env := &SpecEnv{vc: vc, vars: map[string]SV{}, cur: cur, old: vc.entry, pkg: vc.fn.Pkg.Pkg, mode: vc.mode, con: vc.con}
 	for k, v := range vc.params {
 		env.vars[k] = v
 	}
@@ -413,6 +413,14 @@ func (e *Engine) runPass(vc *VC) {
 		}
 	}
 	env := vc.topEnv(entry)
+	if len(con.Defines) > 0 {
+		// defined functions of the pre-state: their axioms hold, and that they are well defined (equal keys
+		// carry equal values) is an implicit precondition checked at every call site
+		axs, wds := vc.instantiateDefines(con, env)
+		for _, t := range append(wds, axs...) {
+			vc.assume(t)
+		}
+	}
 	// package invariants and requires
 	for _, cl := range con.Clauses {
 		if cl.Kind == "requires" {
